@@ -205,6 +205,38 @@ def rule_A4(ctx):
                         r.finding(p, "apply-argument", loc(f["hir"]), "host apply receives argument %s; it must be the right operand (%s)" % (_fmt(arg), _fmt(right)))
         if "defer" in kinds_seen:
             n_defer_fns += 1
+    # input value first: in resolve(), a successful lookup in the current input value ends the look-up
+    rf = [p for p in instruction_fns(F) if F.fns[p]["name"] == "resolve"]
+    if rf:
+        p = rf[0]
+        f = F.fns[p]
+        m2 = rt.Model(F, trusted=spec("arity.json")["trusted"], refine_tags=False)
+        m2.watch = {"get_access_addr": "input-lookup"}
+        try:
+            outs = m2.summary(p, entry_args(f["mir"]["argc"]), 0)
+        except (ai.StateCapExceeded, rt.Unmodelled) as e:
+            outs = []
+            r.finding(p, "uninterpretable:lookup", loc(f["hir"]), "cannot interpret (%s)" % e)
+        seen_lookup = False
+        bad = set()
+        for rv, ts in outs:
+            ev = ts[3]
+            looks = [e for e in ev if e[0] == "input-lookup"]
+            if looks:
+                seen_lookup = True
+            found = any(e[1] == "Ok(Some)" for e in looks)
+            hosts = [e for e in ev if e[0] == "resolve"]
+            kind, d, v, fd, jump = outcome_of(rv, ts)
+            r.examine((p, "lookup", tuple(e[1] for e in looks), len(hosts), kind), True,
+                      {"fn": "resolve", "input_lookup": [e[1] for e in looks], "host_resolve_calls": len(hosts), "returns": kind, "d": d} if found else None)
+            if found and hosts and "host" not in bad:
+                bad.add("host")
+                r.finding(p, "resolve-after-found", loc(f["hir"]), "the host's resolve callback can be invoked although the identifier was found in the current input value: the input value must win and end the look-up")
+            if found and kind == "ok" and d != 1 and "d" not in bad:
+                bad.add("d")
+                r.finding(p, "found-not-pushed", loc(f["hir"]), "the identifier was found in the input value but the path returns Ok with operand delta %s instead of pushing it" % d)
+        if not seen_lookup:
+            r.finding(p, "no-input-lookup", loc(f["hir"]), "resolve() never looks the identifier up in the current input value (get_access_addr is not called)")
     r.floor("instruction functions that can defer to the host", n_defer_fns, 22)
     r.floor("paths with a host callback", n_paths, 60)
     # in resolve(): an accepted/declined host call is the only way past the input lookup without a push
